@@ -238,7 +238,8 @@ func (seg *Segment) Match(ctx *types.Context) bool {
 				ctx.Path = ctx.Path[loc[1]:]
 				return true
 			}
-		} else if loc := seg.expr.FindStringSubmatchIndex(ctx.Path); loc != nil && loc[0] == 0 {
+		} else if loc := seg.expr.FindStringSubmatchIndex(ctx.Path); loc != nil && loc[0] == 0 && loc[3] >= 0 {
+			// loc[3] < 0 表示命名分组未参与匹配，比如规则为 a)|(b 时的 (?P<id>a)|(b)，视为不匹配。
 			ctx.Set(seg.Name, ctx.Path[:loc[3]]) // 只有 ignoreName == false，才会有捕获的值
 			ctx.Path = ctx.Path[loc[1]:]
 			return true
